@@ -397,7 +397,7 @@ impl Prop for C16 {
         "C16"
     }
     fn rule(&self) -> &'static str {
-        "trees (depth <= 5, fan-out <= 6) assembled at run time from the real Par / Seq node types; leaf access sets over 32 resource ids, repaired so that the children of every par node are pairwise compatible (runnable trees), or with exactly one planted conflict at a generated child of a generated par node (rejection trees); pool size {1,2,3,4,8,16}; dispatch from outside and from inside the pool; random per-leaf delays; 1..3 dispatches; oracle (runnable): no panic, every leaf runs exactly once per dispatch, for a seq node every leaf of an earlier child released before any leaf of a later child begins, the root's reads()/writes() equal the union of the leaf declarations, setup reaches every leaf once; oracle (rejection, debug assertions on): Par::with panics exactly at the planted child and at no earlier call, with the documented message; 'may overlap' is a permission and is not asserted; non-trivial = >= 1 seq node with >= 2 children and >= 1 par node with >= 2 children, or a rejection tree; distinct = case hash"
+        "trees (depth <= 5, fan-out <= 6) assembled at run time from the real Par / Seq node types; leaf access sets over 32 resource ids, repaired so that the children of every par node are pairwise compatible (runnable trees), or with exactly one planted conflict at a generated child of a generated par node (rejection trees); pool size {1,2,3,4,8,16}; dispatch from outside and from inside the pool; random per-leaf delays; 1..3 dispatches; oracle (runnable): no panic, every leaf runs exactly once per dispatch, for a seq node every leaf of an earlier child released before any leaf of a later child begins, the root's reads()/writes() equal the union of the leaf declarations, every one of 1..3 setup calls (same world value, emptied in place or not) reaches every leaf once; oracle (rejection, debug assertions on): Par::with panics exactly at the planted child and at no earlier call, with the documented message; 'may overlap' is a permission and is not asserted; non-trivial = >= 1 seq node with >= 2 children and >= 1 par node with >= 2 children, or a rejection tree; distinct = case hash"
     }
     fn stream_len(&self) -> usize {
         400
@@ -527,25 +527,37 @@ impl Prop for C16 {
                 ctx.set_phase(PHASE_SETUP);
                 // ParSeq has an inherent API and a RunNow implementation: both are used
                 let via_run_now = case.jitter.first().map(|j| j % 2 == 1).unwrap_or(false);
-                let r = catch_unwind(AssertUnwindSafe(|| {
-                    if via_run_now {
-                        shred::RunNow::setup(&mut ps, &mut world)
-                    } else {
-                        ps.setup(&mut world)
+                // 1..3 setup calls on the same tree; the world is the same value at the same address,
+                // emptied in place before every other call
+                let n_setups = 1 + case.jitter.get(1).map(|j| (j % 3) as u32).unwrap_or(0);
+                for k in 1..=n_setups {
+                    if k > 1 && case.jitter.get(2).map(|j| j % 2 == 0).unwrap_or(false) {
+                        world = World::empty();
                     }
-                }));
-                ctx.set_phase(PHASE_BUILD);
-                if let Err(p) = r {
-                    return Err(Fail::new(format!("setup panicked: {}", panic_msg(&p))));
+                    ctx.set_phase(PHASE_SETUP);
+                    let r = catch_unwind(AssertUnwindSafe(|| {
+                        if via_run_now {
+                            shred::RunNow::setup(&mut ps, &mut world)
+                        } else {
+                            ps.setup(&mut world)
+                        }
+                    }));
+                    ctx.set_phase(PHASE_BUILD);
+                    if let Err(p) = r {
+                        return Err(Fail::new(format!("setup panicked: {}", panic_msg(&p))));
+                    }
+                    for i in 0..n {
+                        let c = ctx.setup[i].load(SeqCst);
+                        if c != k {
+                            return Err(Fail::new(format!(
+                                "after {} setup call(s) on the tree, setup reached leaf {} {} times",
+                                k, i, c
+                            )));
+                        }
+                    }
                 }
-                for i in 0..n {
-                    let c = ctx.setup[i].load(SeqCst);
-                    if c != 1 {
-                        return Err(Fail::new(format!(
-                            "setup reached leaf {} {} times, expected once",
-                            i, c
-                        )));
-                    }
+                if n_setups > 1 {
+                    st.class("trees_set_up_more_than_once");
                 }
                 let world = fresh_world();
                 for i in 0..n {
